@@ -1,39 +1,40 @@
 """Per-property configuration of ./check: Lean modules holding the property theorems, harness suites
 (T3 + monitors), what is modelled rather than verified, assumptions."""
 
+ENGINE_MODELLED = [
+    "engine model lean/WorkflowModel/Model/Engine.lean: hand-written, tied to the code by co-simulation (every action of every explored history is executed on the real workflow under the gated simulator and on the compiled model; observation lines must be identical)",
+    "operations of different processes interleave at gate granularity (RoleScheduler.Await, Recv, clock.NewTimer, ListValid); races between two writers inside one operation are outside the model",
+    "encoding/json of the run object, protobuf of the outbox record, uuid freshness: external, exercised by the simulator only",
+]
+
+SIM = ["corpus", "sim-random"]
+SIMADV = ["corpus", "sim-random", "sim-adversary"]
+
 PROPS = {
-    "C02": {
-        "lean": ["WorkflowModel.Props.C02Graph"],
-        "suites": ["pure-graph"],
-        "assumptions": [],
-    },
-    "C03": {
-        "lean": ["WorkflowModel.Props.C03Table", "WorkflowModel.Props.C02Graph"],
-        "suites": ["pure-ctl", "pure-graph"],
-        "assumptions": [],
-    },
-    "C04": {
-        "lean": ["WorkflowModel.Props.C04"],
-        "suites": ["corpus", "sim-random", "sim-adversary"],
-        "modelled": ["strconv.ParseInt of the record_version header (canonical decimal renderings only)"],
-        "assumptions": ["reads are current for the 'acted only when current' clause; with a replica lagging at exactly the event's version the clause fails on the unchanged tree (known finding F16)"],
-    },
-    "C05": {
-        "lean": ["WorkflowModel.Props.C05"],
-        "suites": ["corpus", "sim-random"],
-        "modelled": ["protobuf round trip of the outbox record (sampled by the relay monitor: the event sent must equal the decoded entry)",
-                     "the reference store contract (Store = record + one outbox entry atomically); bundled stores are tied to it by C17/C18"],
-        "assumptions": ["outbox lookup limit >= 1 for progress"],
-    },
-    "C06": {
-        "lean": ["WorkflowModel.Props.C06"],
-        "suites": ["pure-routing"],
-        "modelled": ["protobuf encoding of OutboxRecord (decoded by the harness with the generated Go code)"],
-        "assumptions": ["workflow names are valid UTF-8 (proto string fields)"],
-    },
-    "C10": {
-        "lean": ["WorkflowModel.Props.C10Shard"],
-        "suites": ["pure-shards"],
-        "assumptions": [],
-    },
+    "C02": {"lean": ["WorkflowModel.Props.C02Graph", "WorkflowModel.Props.C02Engine"], "suites": ["pure-graph"] + SIM,
+            "modelled": ENGINE_MODELLED, "assumptions": ["whole-history path statement needs writes based on current reads (F20/F16/F17 listed)"]},
+    "C03": {"lean": ["WorkflowModel.Props.C03Table", "WorkflowModel.Props.C02Graph", "WorkflowModel.Props.C03Engine"],
+            "suites": ["pure-ctl", "pure-graph"] + SIMADV, "modelled": ENGINE_MODELLED,
+            "assumptions": ["whole-history lifecycle statement needs writes based on current reads (F20/F16/F17 listed)"]},
+    "C04": {"lean": ["WorkflowModel.Props.C04"], "suites": SIMADV,
+            "modelled": ENGINE_MODELLED + ["strconv.ParseInt of the record_version header (canonical decimal renderings only)"],
+            "assumptions": ["reads are current for the 'acted only when current' clause; with a replica lagging at exactly the event's version the clause fails on the unchanged tree (known finding F16)"]},
+    "C05": {"lean": ["WorkflowModel.Props.C05"], "suites": SIM,
+            "modelled": ENGINE_MODELLED + ["the reference store contract (Store = record + one outbox entry atomically); bundled stores are tied to it by C17/C18"],
+            "assumptions": ["outbox lookup limit >= 1 for progress"]},
+    "C06": {"lean": ["WorkflowModel.Props.C06"], "suites": ["pure-routing"] + SIM,
+            "modelled": ["protobuf encoding of OutboxRecord (decoded by the harness with the generated Go code)"],
+            "assumptions": ["workflow names are valid UTF-8 (proto string fields)"]},
+    "C07": {"lean": ["WorkflowModel.Props.C07"], "suites": SIM, "modelled": ENGINE_MODELLED + ["connector event JSON round trip: outside the model (pure driver)"],
+            "assumptions": []},
+    "C08": {"lean": ["WorkflowModel.Props.C08"], "suites": SIMADV, "modelled": ENGINE_MODELLED, "assumptions": ["operations atomic with respect to each other"]},
+    "C09": {"lean": ["WorkflowModel.Props.C09"], "suites": SIM, "modelled": ENGINE_MODELLED, "assumptions": ["store = reference contract (Latest = newest created run)"]},
+    "C10": {"lean": ["WorkflowModel.Props.C10Shard"], "suites": ["pure-shards"] + SIM, "assumptions": []},
+    "C12": {"lean": ["WorkflowModel.Props.C12"], "suites": SIMADV, "modelled": ENGINE_MODELLED, "assumptions": ["one timeout per status (two: finding F19)"]},
+    "C13": {"lean": ["WorkflowModel.Props.C13"], "suites": SIM, "modelled": ENGINE_MODELLED,
+            "assumptions": ["single instance (the counter is in process memory)", "error-counter key injective on the triples that occur"]},
+    "C14": {"lean": ["WorkflowModel.Props.C14"], "suites": SIM, "modelled": ENGINE_MODELLED, "assumptions": []},
+    "C15": {"lean": ["WorkflowModel.Props.C15"], "suites": SIMADV, "modelled": ENGINE_MODELLED, "assumptions": ["custom delete function idempotent on already scrubbed objects (the harness's is)"]},
+    "C16": {"lean": ["WorkflowModel.Props.C16"], "suites": ["pure-ctl"] + SIMADV, "modelled": ENGINE_MODELLED,
+            "assumptions": ["JSON encode/decode of the object external", "no nested writes to the same run inside a user function (F20 listed)"]},
 }
